@@ -179,6 +179,7 @@ func main() {
 	tags := flag.String("tags", "", "build tags")
 	witnessSel := flag.String("witness", "", "run sensitivity witnesses of -prop: all or a name")
 	dump := flag.String("dump", "", "debug: dump functions pkg:Name[,pkg:Name]")
+	genNamesTo := flag.String("gen-names", "", "write the frozen reference-name table for the current tree to this file (maintenance)")
 	flag.Parse()
 
 	if *list {
@@ -199,7 +200,7 @@ func main() {
 		fmt.Printf("replaying %s %s key=%s (%s)\n  recorded: %s\n", o.Prop, o.Rule, o.Key, o.Pos, o.Msg)
 		*prop = o.Prop
 	}
-	if *prop == "" && *dump == "" {
+	if *prop == "" && *dump == "" && *genNamesTo == "" {
 		fmt.Fprintln(os.Stderr, "usage: tmverif -prop Cnn [-tier quick|thorough]")
 		os.Exit(2)
 	}
@@ -278,6 +279,14 @@ func main() {
 		os.Exit(2)
 	}
 	fmt.Printf("loaded %d root packages, %d in-scope functions in %.1fs\n", len(w.Roots), len(w.Funcs), w.LoadS)
+	if *genNamesTo != "" {
+		frozenOnce.Do(func() { frozenTable = map[string]*frozenFn{} }) // describe with current names
+		if err := os.WriteFile(*genNamesTo, genNames(w), 0o644); err != nil {
+			fmt.Println(err)
+			os.Exit(2)
+		}
+		return
+	}
 
 	if *dump != "" {
 		for _, d := range strings.Split(*dump, ",") {
@@ -319,6 +328,7 @@ func main() {
 		}
 		if *tier == "thorough" {
 			res.witness = runWitnesses(w, p, ff)
+			res.witness = append(res.witness, runSeedWitnesses(*repo, vd, p, ff)...)
 			extra := runExtraConfigs(p, *repo, ff)
 			for _, e := range extra {
 				res.rulesRun = append(res.rulesRun, e.summary)
@@ -351,6 +361,16 @@ func main() {
 			exit = 1
 		}
 		witnessBroken := false
+		if len(res.witness) > 0 {
+			cnt := map[string]int{}
+			for _, wr := range res.witness {
+				cnt[wr.Status]++
+				if *verbose || wr.Status == "skipped" {
+					fmt.Printf("  witness %-8s %-7s %s — %s\n", wr.Status, wr.Kind, wr.Name, wr.Msg)
+				}
+			}
+			fmt.Printf("  witnesses: %d run — %d fired (break), %d silent (neutral), %d skipped, %d broken\n", len(res.witness), cnt["fired"], cnt["silent"], cnt["skipped"], cnt["broken"])
+		}
 		for _, wr := range res.witness {
 			if wr.Status == "broken" {
 				witnessBroken = true
